@@ -197,6 +197,8 @@ def run(prop, tier, seed, replay=None):
                 for i, l in enumerate(lines):
                     evaluations += 1
                     m, s = r["model"][i], r["spec"][i]
+                    if s.startswith("MERGED"):
+                        s = "N/A"          # compared by the property's observe() hook
                     if s != "N/A":
                         st["spec_applicable"] += 1
                     first_impl = None
